@@ -211,21 +211,75 @@ def _syms(st):
     return out
 
 
-def _reads_field(b, defs, op, field, depth=4):
-    """does the operand read `.<field>` of something (directly or through single-definition copies)?"""
-    for _ in range(depth):
-        if op.get("o") not in ("copy", "move"):
-            return False
-        pl = op["pl"]
-        if any(isinstance(p, dict) and p.get("n") == field for p in pl["p"]):
-            return True
-        if pl["p"]:
-            return False
-        d = mu.single_def(defs, pl["l"])
-        if d is None or d[1] == "term" or d[2].get("k") != "use":
-            return False
-        op = d[2]["op"]
-    return False
+def _reads_field(b, defs, op, field, depth=14):
+    """does the operand read `.<field>` of something?  Followed backwards through every definition of the locals involved:
+    copies / casts, `&x.field` + deref, and a value wrapped into `Option::Some(..)` and unwrapped again (`None` definitions carry
+    no value and are skipped).  True iff at least one source is found and every source reads the field."""
+    found = []
+
+    def place(pl, unwrap, d):
+        proj = list(pl["p"])
+        if any(isinstance(p, dict) and p.get("n") == field for p in proj):
+            found.append(True)
+            return
+        # (_x as Some).0
+        if len(proj) >= 2 and isinstance(proj[0], dict) and proj[0].get("dc") is not None and proj[0].get("n") == "Some" and \
+                isinstance(proj[1], dict) and proj[1].get("f") == 0 and len(proj) == 2:
+            local(pl["l"], unwrap + 1, d)
+        elif proj == ["d"]:
+            local(pl["l"], unwrap, d, deref=True)
+        elif not proj:
+            local(pl["l"], unwrap, d)
+        else:
+            found.append(False)
+
+    def local(l, unwrap, d, deref=False):
+        if d <= 0:
+            found.append(False)
+            return
+        ds = defs.get(l, [])
+        if not ds:
+            found.append(False)
+            return
+        for (bi, si, rv) in ds:
+            if si == "term":
+                found.append(False)
+                continue
+            k = rv.get("k")
+            if k == "use":
+                o = rv["op"]
+                if o.get("o") in ("copy", "move"):
+                    if deref:
+                        # a copied reference
+                        local_or_place_deref(o["pl"], unwrap, d - 1)
+                    else:
+                        place(o["pl"], unwrap, d - 1)
+                else:
+                    found.append(False)
+            elif k == "cast" and rv["op"].get("o") in ("copy", "move") and not deref:
+                place(rv["op"]["pl"], unwrap, d - 1)
+            elif k == "ref" and deref:
+                place(rv["pl"], unwrap, d - 1)
+            elif k == "agg" and rv.get("ak") == "adt" and rv.get("adt", "").endswith("Option") and not deref:
+                if rv["vn"] == "None":
+                    continue
+                if unwrap > 0 and rv["ops"] and rv["ops"][0].get("o") in ("copy", "move"):
+                    place(rv["ops"][0]["pl"], unwrap - 1, d - 1)
+                else:
+                    found.append(False)
+            else:
+                found.append(False)
+
+    def local_or_place_deref(pl, unwrap, d):
+        if not pl["p"]:
+            local(pl["l"], unwrap, d, deref=True)
+        else:
+            found.append(False)
+
+    if op.get("o") not in ("copy", "move"):
+        return False
+    place(op["pl"], 0, depth)
+    return bool(found) and all(found)
 
 
 def nsec_inline_order(ctx, b):
@@ -270,7 +324,11 @@ def nsec_inline_order(ctx, b):
             false_t = [tg for v, tg in sw["arms"] if int(v) == 0]
             if not false_t:
                 continue
-            rt, rf = mu.reachable_from(b, true_t, avoid={bi}), mu.reachable_from(b, false_t[0], avoid={bi})
+            an = ctx.whole.results.get(b.id)
+            if an is not None and getattr(an, "node_edges", None):
+                rt, rf = an.blocks_reachable(true_t, avoid={bi}), an.blocks_reachable(false_t[0], avoid={bi})
+            else:
+                rt, rf = mu.reachable_from(b, true_t, avoid={bi}), mu.reachable_from(b, false_t[0], avoid={bi})
             # the rejecting side reaches an error construction and never the push
             err_true = any(e in rt for e in errs) and not any(p in rt for p in pushes)
             err_false = any(e in rf for e in errs) and not any(p in rf for p in pushes)
